@@ -3,7 +3,7 @@
 
 use std::net::{IpAddr, Ipv4Addr, Ipv6Addr, SocketAddr, SocketAddrV4, SocketAddrV6};
 
-#[derive(Clone, Debug, PartialEq, Eq)]
+#[derive(Clone, Debug, PartialEq, Eq, serde::Serialize, serde::Deserialize)]
 pub enum B {
     Int(i64),
     Bytes(Vec<u8>),
@@ -206,13 +206,82 @@ pub enum KWant {
     Both,
 }
 
-#[derive(Clone, Debug, PartialEq, Eq)]
+#[derive(Clone, Debug, PartialEq, Eq, serde::Serialize, serde::Deserialize)]
 pub enum KQuery {
-    Ping { id: Vec<u8> },
-    FindNode { id: Vec<u8>, target: Vec<u8>, want: KWant },
-    GetPeers { id: Vec<u8>, info_hash: Vec<u8>, want: KWant },
+    Ping {
+        #[serde(with = "hexser")]
+        id: Vec<u8>,
+    },
+    FindNode {
+        #[serde(with = "hexser")]
+        id: Vec<u8>,
+        #[serde(with = "hexser")]
+        target: Vec<u8>,
+        want: KWant,
+    },
+    GetPeers {
+        #[serde(with = "hexser")]
+        id: Vec<u8>,
+        #[serde(with = "hexser")]
+        info_hash: Vec<u8>,
+        want: KWant,
+    },
     /// `port: None` = implied port
-    Announce { id: Vec<u8>, info_hash: Vec<u8>, port: Option<u16>, token: Vec<u8> },
+    Announce {
+        #[serde(with = "hexser")]
+        id: Vec<u8>,
+        #[serde(with = "hexser")]
+        info_hash: Vec<u8>,
+        port: Option<u16>,
+        #[serde(with = "hexser")]
+        token: Vec<u8>,
+    },
+}
+
+pub mod hexser {
+    use serde::{Deserialize, Deserializer, Serializer};
+    pub fn serialize<S: Serializer>(v: &Vec<u8>, s: S) -> Result<S::Ok, S::Error> {
+        s.serialize_str(&super::hex(v))
+    }
+    pub fn deserialize<'de, D: Deserializer<'de>>(d: D) -> Result<Vec<u8>, D::Error> {
+        Ok(super::unhex(&String::deserialize(d)?))
+    }
+}
+
+pub mod hexopt {
+    use serde::{Deserialize, Deserializer, Serializer};
+    pub fn serialize<S: Serializer>(v: &Option<Vec<u8>>, s: S) -> Result<S::Ok, S::Error> {
+        match v {
+            Some(v) => s.serialize_some(&super::hex(v)),
+            None => s.serialize_none(),
+        }
+    }
+    pub fn deserialize<'de, D: Deserializer<'de>>(d: D) -> Result<Option<Vec<u8>>, D::Error> {
+        Ok(Option::<String>::deserialize(d)?.map(|s| super::unhex(&s)))
+    }
+}
+
+pub mod nodeser {
+    use serde::{Deserialize, Deserializer, Serialize, Serializer};
+    pub fn serialize<S: Serializer, A: ToString>(v: &Vec<(super::Id, A)>, s: S) -> Result<S::Ok, S::Error> {
+        let x: Vec<(String, String)> = v.iter().map(|(i, a)| (super::hex(i), a.to_string())).collect();
+        x.serialize(s)
+    }
+    pub fn deserialize<'de, D: Deserializer<'de>, A: std::str::FromStr>(d: D) -> Result<Vec<(super::Id, A)>, D::Error> {
+        let x = Vec::<(String, String)>::deserialize(d)?;
+        x.into_iter()
+            .map(|(i, a)| {
+                let mut id = [0u8; 20];
+                let b = super::unhex(&i);
+                if b.len() != 20 {
+                    return Err(serde::de::Error::custom("id length"));
+                }
+                id.copy_from_slice(&b);
+                let a = a.parse().map_err(|_| serde::de::Error::custom("addr"))?;
+                Ok((id, a))
+            })
+            .collect()
+    }
 }
 
 impl KQuery {
@@ -234,24 +303,29 @@ impl KQuery {
     }
 }
 
-#[derive(Clone, Debug, PartialEq, Eq, Default)]
+#[derive(Clone, Debug, PartialEq, Eq, Default, serde::Serialize, serde::Deserialize)]
 pub struct KResp {
+    #[serde(with = "hexser")]
     pub id: Vec<u8>,
+    #[serde(with = "hexopt")]
     pub token: Option<Vec<u8>>,
     pub values: Vec<SocketAddr>,
+    #[serde(with = "nodeser")]
     pub nodes: Vec<(Id, SocketAddrV4)>,
+    #[serde(with = "nodeser")]
     pub nodes6: Vec<(Id, SocketAddrV6)>,
 }
 
-#[derive(Clone, Debug, PartialEq, Eq)]
+#[derive(Clone, Debug, PartialEq, Eq, serde::Serialize, serde::Deserialize)]
 pub enum KBody {
     Query(KQuery),
     Resp(KResp),
     Error { code: i64, msg: String },
 }
 
-#[derive(Clone, Debug, PartialEq, Eq)]
+#[derive(Clone, Debug, PartialEq, Eq, serde::Serialize, serde::Deserialize)]
 pub struct KMsg {
+    #[serde(with = "hexser")]
     pub tid: Vec<u8>,
     pub body: KBody,
 }
